@@ -153,6 +153,23 @@ Example ex_traverse :
             traverse false 0 (t_children t) = ([(0, None); (3, Some 0); (1, Some 0); (2, Some 1)], true).
 Proof. eexists. split; [vm_compute; reflexivity|]. split; vm_compute; reflexivity. Qed.
 
+(* the hypothesis of C10_traverse is met by the tables of that tree *)
+Example ex_tree_tables :
+  exists t, bfs ex_c ex_g 0 = Some t /\
+            tree_tables 6 0 (fun v => getb (t_seen t) v = true) (t_parent t) (t_children t) (depth_of t).
+Proof.
+  destruct (bfs_some ex_c ex_g 0) as [t Ht]; [simpl; lia|]. exists t. split; auto.
+  apply (bfs_tree_tables ex_c ex_g 0 t). now apply bfs_correct; [apply ex_wf|].
+Qed.
+
+(* the checkers accept another breadth-first tree of the same component (vertex 2 hung below 3 instead of 1) *)
+Example ex_checkers :
+  exists t, bfs ex_c ex_g 0 = Some t /\
+    is_bfs_tree 6 (adm_nbrs ex_c ex_g) 0 (t_seen t) (t_dist t) [None; Some 0; Some 3; Some 0; None; None] = true /\
+    is_tree_table 6 [None; Some 0; Some 3; Some 0; None; None] [[3; 1]; []; []; [2]; []; []] = true /\
+    is_edge_list 6 [None; Some 0; Some 3; Some 0; None; None] [(2, 3); (0, 1); (0, 3)] = true.
+Proof. eexists. split; [vm_compute; reflexivity|]. repeat split; vm_compute; reflexivity. Qed.
+
 (* a square with a diagonal, custom weights: the forest is {1-2, 0-3, 2-3} of weight 6 *)
 Definition ex_ki : kinput :=
   mkKI 4 [(0, 1); (1, 2); (2, 3); (0, 3); (0, 2)] [true; true; true; true; false]
